@@ -4,6 +4,7 @@ import Hifi.Model.Views
 import Hifi.Model.ViewsFloat
 import Hifi.Model.LeapFile
 import Hifi.Spec.Epoch
+import Hifi.Spec.Calendar
 import Hifi.Drive.Duration
 /-
   Driver handlers for the epoch ops (C04 C05 C06 C12 C15 C16 C20).
@@ -587,7 +588,7 @@ def handleMore (op : String) (args : List String) (impl : Impl) : Option Ans :=
     let ts ← (match op, args with
       | "weekday", _ => some TS.TAI | "weekday_utc", _ => some TS.UTC
       | _, [_, t] => TS.ofString? t | _, _ => none)
-    let m := e.weekdayIn ts
+    let m := e.weekdayInCivil ts
     let fits := convFits e ts
     let i ← instOf e
     let ins := ts == TS.UTC && e.ts != TS.UTC && inInserted iersTbl i
@@ -596,7 +597,8 @@ def handleMore (op : String) (args : List String) (impl : Impl) : Option Ans :=
       | .ok [w] =>
         -- the value v of e in ts is characterised by `denotes`; search it from the model-free side:
         (match (if ts == TS.UTC then none else valueIn e ts) with
-         | some v => verdict [("civil_weekday", w == toString (specWeekday v))]
+         -- civil weekday of the calendar date in `ts`: the count v in `ts` runs from that scale's reference date-time
+         | some v => verdict [("civil_weekday", w == toString (specWeekday (v + refOffsetNs ts.name)))]
          | none =>
            -- UTC: v = i − L·1e9 for the L in force; accept the weekday of any v that denotes i
            let cands := (0 :: iersTbl.map (·.2)).map (fun l => i - l * 1000000000) |>.filter (fun v => denotes iersTbl "UTC" v i)
@@ -627,21 +629,32 @@ def handleMore (op : String) (args : List String) (impl : Impl) : Option Ans :=
     pure { model := showOEp m, spec := sp, branch := op ++ ":" ++ e.ts.name ++ ":" ++ toString w ++ (if fits then "" else ":saturating") }
   | "next_midnight", [e, w] | "next_noon", [e, w] | "prev_midnight", [e, w] | "prev_noon", [e, w] => do
     let e ← parseEp? e; let w ← w.toInt?
-    let base := if op == "next_midnight" || op == "next_noon" then e.next w else e.previous w
+    let fwd := op == "next_midnight" || op == "next_noon"
+    let base : Ep := if fwd then e.nextOwn w else e.previousOwn w
     let h : Int := if op == "next_noon" || op == "prev_noon" then 12 else 0
-    let m : Option (Res Ep) := base.map (fun b => match withHmsStrict b.dur h with
-      | .ok d => Res.ok (⟨d, b.ts⟩ : Ep) | .err => .err | .panic => .panic)
-    let fits := convFits e TS.TAI && inRange (sval e.dur + 8 * nsPerDay) && inRange (sval e.dur - 8 * nsPerDay)
-    -- spec: the day (of the scale's own count, floor division: also before the reference) that contains the
-    -- result of next/previous, at 00:00 / 12:00
-    let sp := if !fits then noPanic impl else match impl, base with
-      | .ok [r], some b => (match parseEp? r with
-          | some r => verdict [("scale", r.ts == e.ts), ("time_of_day", sval r.dur == (sval b.dur / nsPerDay) * nsPerDay + h * 3600000000000)]
+    let m : Res Ep := match withHmsStrictCal base.dur base.ts h with
+      | .ok d => Res.ok (⟨d, base.ts⟩ : Ep) | .err => .err | .panic => .panic
+    let fits := inRange (sval e.dur + 9 * nsPerDay) && inRange (sval e.dur - 9 * nsPerDay) &&
+                inRange (sval e.dur + refOffsetNs e.ts.name + 9 * nsPerDay)
+    -- spec, on the calendar of the epoch's OWN scale (civil count = elapsed time + the scale's reference date-time):
+    -- the result falls on the requested weekday, at 00:00:00 / 12:00:00 of that day, strictly later / earlier than the
+    -- epoch and less than eight days away; all nine scales (ET/TDB count from noon), also before the reference
+    let sp := if !fits then noPanic impl else match impl with
+      | .ok [r] => (match parseEp? r with
+          | some r =>
+            let cv := sval r.dur + refOffsetNs e.ts.name
+            let delta := if fwd then sval r.dur - sval e.dur else sval e.dur - sval r.dur
+            verdict [("scale", r.ts == e.ts), ("canonical", scanon r.dur),
+                     ("lands_on_weekday", specWeekday cv == w),
+                     ("civil_time_of_day", cv % nsPerDay == h * 3600000000000),
+                     (if fwd then "strictly_later" else "strictly_earlier", decide (0 < delta)),
+                     ("within_eight_days", decide (delta < 8 * nsPerDay))]
           | none => "FAIL:decode")
-      | .other x, _ => "FAIL:" ++ x
-      | _, _ => "FAIL:decode"
-    pure { model := (match m with | some (.ok x) => "ok " ++ showEp x | some .err => "err" | some .panic => "panic" | none => "unmodelled"),
-           spec := sp, branch := op ++ ":" ++ e.ts.name ++ (if sval e.dur < 0 then ":before_ref" else "") }
+      | .other x => "FAIL:" ++ x
+      | _ => "FAIL:decode"
+    pure { model := (match m with | .ok x => "ok " ++ showEp x | .err => "err" | .panic => "panic"),
+           spec := sp, branch := op ++ ":" ++ e.ts.name ++ (if sval e.dur < 0 then ":before_ref" else "") ++
+             (if specWeekday (sval e.dur + refOffsetNs e.ts.name) != specWeekday ((match instOf e with | some i => i | none => 0)) && e.ts != TS.ET && e.ts != TS.TDB then ":tai_day_differs" else "") }
   | "wd_from_u8", [i] => do
     let i ← i.toInt?
     pure { model := "ok " ++ toString (wdFromU8 i), spec := judgeInt impl (i % 7), branch := "wd_from_u8" }
